@@ -538,6 +538,10 @@ func init() {
 		Name: "meta-when-the-writer-fails", Chroot: true,
 		N:   fw.Fixed(40, 600),
 		Run: c20FailingWriter,
+	}, &fw.Phase{
+		Name: "meta-when-a-file-changes-while-packing", Chroot: true, Exhaustive: true,
+		N:   func(string) int { return 5 * 4 * 4 },
+		Run: c20ChangingFile,
 	})
 	fw.Register(&fw.Property{
 		ID:    "C20",
@@ -672,6 +676,89 @@ func c20SharedPacker(env *fw.Env, idx int) fw.Result {
 				return res
 			}
 		}
+	}
+	return res
+}
+
+// hookWriter calls hook once, when n bytes have been written.
+type hookWriter struct {
+	buf  bytes.Buffer
+	at   int
+	hook func()
+	done bool
+}
+
+func (h *hookWriter) Write(p []byte) (int, error) {
+	n, err := h.buf.Write(p)
+	if !h.done && h.buf.Len() >= h.at {
+		h.done = true
+		h.hook()
+	}
+	return n, err
+}
+
+// c20ChangingFile: a file shrinks, grows or disappears while Pack is reading
+// the tree (the destination writer triggers the change once part of the
+// output has passed). Pack may fail; when it returns a Meta without an error
+// the Meta must still describe the slug it wrote.
+func c20ChangingFile(env *fw.Env, idx int) fw.Result {
+	r := env.Rand(idx)
+	change := []string{"shrink-to-half", "shrink-to-zero", "grow", "remove", "replace-by-directory"}[idx%5]
+	opts := allPackOpts[(idx/5)%len(allPackOpts)]
+	at := []int{1, 2, 3, 5}[(idx/20)%4] // tenths of the big file's size at which the change happens
+	res := fw.Result{Hash: fw.HashString(fmt.Sprint("chg", change, opts.String(), at)), NonTrivial: true, Class: "tree-changes-while-packing:" + change, Case: map[string]interface{}{"change": change, "opts": opts.String(), "after_output_tenths": at}}
+	src := "/c20c/src"
+	if err := freshDir("/c20c"); err != nil {
+		return fw.Result{Verdict: fw.Inconclusive, Msg: err.Error()}
+	}
+	big := make([]byte, 2<<20)
+	for i := range big {
+		big[i] = byte(r.Intn(256)) // incompressible, so output position tracks input position
+	}
+	mustWrite(src+"/a.tf", "a", 0644)
+	mustWrite(src+"/m/big.bin", string(big), 0644)
+	mustWrite(src+"/m/next.bin", string(big[:70000]), 0644)
+	mustWrite(src+"/z.tf", "zz", 0600)
+	target := src + "/m/big.bin"
+	if change == "remove" || change == "replace-by-directory" {
+		target = src + "/m/next.bin" // not yet opened when the change happens
+	}
+	p, _ := slug.NewPacker(opts.options()...)
+	hw := &hookWriter{at: len(big) * at / 10, hook: func() {
+		switch change {
+		case "shrink-to-half":
+			os.Truncate(target, int64(len(big)/2))
+		case "shrink-to-zero":
+			os.Truncate(target, 0)
+		case "grow":
+			if f, err := os.OpenFile(target, os.O_APPEND|os.O_WRONLY, 0644); err == nil {
+				f.Write(big[:100000])
+				f.Close()
+			}
+		case "remove":
+			os.Remove(target)
+		case "replace-by-directory":
+			os.Remove(target)
+			os.Mkdir(target, 0755)
+		}
+	}}
+	var o packObs
+	panicked, pv := fw.Try(func() { o.Meta, o.Err = p.Pack(src, hw) })
+	res.Evals = 1
+	if panicked {
+		res.Verdict, res.Finding, res.Msg = fw.Violated, "pack-panic", pv
+		return res
+	}
+	if o.Err != nil {
+		res.Class += ":pack-error"
+		return res
+	}
+	res.Class += ":packed"
+	o.Data = hw.buf.Bytes()
+	o.Entries, o.DecErr = mon.DecodeSlug(o.Data)
+	if msg := metaCheck(o); msg != "" {
+		res.Verdict, res.Finding = fw.Violated, "meta-mismatch-changing-tree"
+		res.Msg = fmt.Sprintf("a file of the tree was changed (%s) while Pack was running; Pack returned a Meta and no error, but: %s", change, msg)
 	}
 	return res
 }
